@@ -5,6 +5,9 @@ import Verif.Driver.Codec
 import Verif.Spec.Rfc4511
 import Verif.Model.FilterText
 import Verif.Generated.Regexes
+import Verif.Model.ReCap
+import Verif.Model.SchemaMatch
+import Verif.Model.FilterCost
 
 open Lean
 
@@ -14,6 +17,10 @@ def errJson (e : Err) : Json := Json.mkObj [("err", errName e)]
 
 def tagFromJson (j : Json) : Except String Tag := do
   return ⟨← getNat j "cls", ← getBool j "cons", ← getNat j "num"⟩
+
+def optStr : Option (List Nat) → Json
+  | none => Json.null
+  | some l => Json.arr (l.map (fun (n : Nat) => (n : Json))).toArray
 
 def pureOp (op : String) (j : Json) : Except String Json := do
   match op with
@@ -59,6 +66,13 @@ def pureOp (op : String) (j : Json) : Except String Json := do
     | .error (.syntax off len) => return Json.mkObj [("err", Json.mkObj [("off", off), ("len", len)])]
     | .error .recursion => return Json.mkObj [("err", "recursion")]
     | .error .fuel => return Json.mkObj [("err", "fuel")]
+  | "fparsec" =>
+    -- the counting parser: outcome class and the number of `_unpack_filter` / `_unpack_complex_filter` / `_unpack_simple_filter` calls
+    let cps ← (← getArr j "cps").mapM (fun x => x.getNat?)
+    let depth := (getNat j "depth").toOption.getD 200
+    match FilterCost.parseFilterTextC depth cps with
+    | (.ok _, k) => return Json.mkObj [("ok", Json.bool true), ("calls", k)]
+    | (.error _, k) => return Json.mkObj [("ok", Json.bool false), ("calls", k)]
   | "attr_valid" => return Json.mkObj [("ok", Json.bool (validAttr (← getBytes j "hex")))]
   | "rematch" =>
     let name ← getStr j "name"
@@ -69,6 +83,48 @@ def pureOp (op : String) (j : Json) : Except String Json := do
       match Re.matchLen r cps with
       | some n => return Json.mkObj [("end", n)]
       | none => return Json.mkObj [("end", Json.null)]
+  | "rematchg" =>
+    -- `re.match` with the named groups: `{"end": n, "groups": {name: [code points] | null}}`
+    let name ← getStr j "name"
+    let cps ← (← getArr j "cps").mapM (fun x => x.getNat?)
+    match Regexes.allGroupPatterns.find? (·.1 == name) with
+    | none => return Json.mkObj [("err", "unknown-pattern")]
+    | some (_, r, tbl) =>
+      match Re.matchG r cps with
+      | none => return Json.mkObj [("end", Json.null)]
+      | some (rest, caps) =>
+        let gs := tbl.map fun (g, i) => (g, optStr (Re.capOf i caps))
+        return Json.mkObj [("end", cps.length - rest.length), ("groups", Json.mkObj gs)]
+  | "schemamatch" =>
+    -- the scanner of the schema model on its own: the group texts `from_string` reads
+    let kind ← getStr j "kind"
+    let cps ← (← getArr j "cps").mapM (fun x => x.getNat?)
+    match kind with
+    | "oc" =>
+      match Schema.matchOC cps with
+      | none => return Json.mkObj [("groups", Json.null)]
+      | some g => return Json.mkObj [("groups", Json.mkObj [("oid", optStr g.oid), ("name", optStr g.name), ("desc", optStr g.desc),
+          ("obsolete", Json.bool g.obsolete), ("sup", optStr g.sup), ("kind", optStr g.kind), ("must", optStr g.must),
+          ("may", optStr g.may), ("extensions", optStr g.extensions)])]
+    | "at" =>
+      match Schema.matchAT cps with
+      | none => return Json.mkObj [("groups", Json.null)]
+      | some g => return Json.mkObj [("groups", Json.mkObj [("oid", optStr g.oid), ("name", optStr g.name), ("desc", optStr g.desc),
+          ("obsolete", Json.bool g.obsolete), ("sup", optStr g.sup), ("equality", optStr g.equality), ("ordering", optStr g.ordering),
+          ("substr", optStr g.substr), ("syntax", optStr g.syn), ("single_value", Json.bool g.singleValue),
+          ("collective", Json.bool g.collective), ("no_user_modification", Json.bool g.noUserMod), ("usage", optStr g.usage),
+          ("extensions", optStr g.extensions)])]
+    | "dcr" =>
+      match Schema.matchDCR cps with
+      | none => return Json.mkObj [("groups", Json.null)]
+      | some g => return Json.mkObj [("groups", Json.mkObj [("oid", optStr g.oid), ("name", optStr g.name), ("desc", optStr g.desc),
+          ("obsolete", Json.bool g.obsolete), ("aux", optStr g.aux), ("must", optStr g.must), ("may", optStr g.may),
+          ("not", optStr g.never), ("extensions", optStr g.extensions)])]
+    | "noidlen" =>
+      match Schema.noidlenMatch cps with
+      | none => return Json.mkObj [("groups", Json.null)]
+      | some (v, l) => return Json.mkObj [("groups", Json.mkObj [("value", optStr (some v)), ("len", optStr (some l))])]
+    | _ => return Json.mkObj [("err", "unknown-kind")]
   | "rework" =>
     let name ← getStr j "name"
     let cps ← (← getArr j "cps").mapM (fun x => x.getNat?)
